@@ -441,7 +441,10 @@ def grow(rng, e, depth, bad_rate=0.06):
             # DESIGN 8, discrete decisions on numbers: the pseudo-inverse tests `weight == 0`; a row sum that is zero
             # exactly but not in float64 (cancellation of non-dyadic terms) would be inverted by the code: such
             # operands are not normalised (counted as tie-skipped)
-            sums = np.asarray(o.dot(np.ones(shape[1])), dtype=float)
+            try:
+                sums = np.asarray(o.dot(np.ones(shape[1])), dtype=float)
+            except ERRORS:
+                sums = np.zeros(0)          # the product itself is refused: the cases below will report it
             scale = 1 + float(np.max(np.abs(sums))) if len(sums) else 1.0
             if np.any((np.abs(sums) > 0) & (np.abs(sums) < 1e-6 * scale)):
                 TIE_SKIPPED[0] += 1
@@ -1070,6 +1073,11 @@ def search(ctx, pending):
                                          'what': 'the implementation raises on an input for which the denoted dense matrix (and the model of the code) give a result'}})
     if found:
         return found[:5]
+    # (b) the run itself already produced failing inputs for the same entry points: they are the failing inputs
+    entries = {str(sig.get('entry')) for _, sig, _ in pending}
+    same = [f for f in getattr(ctx, 'spec_failures', []) if str(f['sig'].get('entry')) in entries]
+    if same:
+        return [{'sig': f['sig'], 'case': f['case'], 'detail': f['detail']} for f in same[:5]]
     rng = ctx.rng
     cases = []
     for leaf in exhaustive_leaf_exprs():
@@ -1078,7 +1086,6 @@ def search(ctx, pending):
             o, err = try_build(e)
             if err is None:
                 cases += cases_for_expr(ctx, rng, e, full=True)
-    entries = {str(p[1].get('entry')) for p in pending}
     for i in range(600):
         e = grow(rng, rand_leaf(rng), rng.randint(0, 3), 0.0)
         cases += cases_for_expr(ctx, rng, e, full=True)
